@@ -8,6 +8,9 @@ Leg B: the same predicates evaluated by TLC (spec/LevelTrace.tla) on total-level
        chip channel is judged - the TL registers in force must be the levels of the note the channel is keyed for
        (Level.tla part 3; LevelMC scope `share` model-checks the time-shared channel with the take-over rule of /repo 5cd89c0:
        a key-on for a note the registers were not levelled for re-levels; TakeOver = FALSE, the code as written before, is refuted).
+       RSXX histories (an EA-MUS song loaded first): a NoteOn for a sounding key is a velocity update of the sounding note
+       (Level!RestrikeVel), judged like every re-levelling, with instruments of velocity offset -128..127; the locked
+       set-up keeps the Generic model in force (taken from the record).
 Leg C: recorded bytes = bytes predicted by the exact transcription (refinement, reported as MODEL-DRIFT).
 Set VERIF_JOBS to limit the number of parallel workers (default: all cores)."""
 import json, os, random, re, time
@@ -149,7 +152,9 @@ def check_c11(pid, tier, replay):
     # more notes than chip channels (automatic arpeggio on / off), time passing: every key-on judged for the note that owns the channel
     cong = gen_level.congestion_histories(random.Random(vc.seed() * 104729 + 11), 240 if q else 2400, longer=not q, bends=True)
     # interleave the expensive sweep histories with the cheap ones so that the chunks are balanced
-    cheap = beh + bound + ex + rnd + cong
+    # EA-MUS (RSXX) music mode: a NoteOn for a sounding key is a velocity update; instruments with velocity offsets
+    rsxx = gen_level.rsxx_histories(random.Random(vc.seed() * 1299709 + 11), 60 if q else 600)
+    cheap = beh + bound + ex + rnd + cong + rsxx
     random.Random(vc.seed() * 31 + 11).shuffle(cheap)
     histories = []
     step = max(1, len(cheap) // max(1, len(sweeps)))
@@ -169,6 +174,7 @@ def check_c11(pid, tier, replay):
         "traces_validated_against_impl": len(histories), "records_validated": stats["records"],
         "sweep_histories": len(sweeps), "boundary_histories": len(bound), "exhaustive_short_histories": len(ex), "random_histories": len(rnd),
         "congestion_histories": len(cong),
+        "rsxx_histories": len(rsxx), "rsxx_restrikes_judged": counters.get("restrikes", 0),
         "key_ons": {"judged": counters.get("kon_judged", 0), "not_attributed": counters.get("kon_skipped", 0),
                     "on_shared_chip_channels": counters.get("kon_shared", 0), "hand_overs_between_notes": counters.get("kon_turns", 0),
                     "owner_with_a_zero_control": counters.get("kon_zero", 0), "monotone_comparisons": counters.get("kon_pairs", 0),
@@ -184,7 +190,7 @@ def check_c11(pid, tier, replay):
         "rule": "one evaluation = one note re-levelled by one call (4 TL bytes) judged by range/zero/modulator and, against the previous "
                 "levelling of the same note, by the monotone/brightness predicates; distinct_nontrivial = comparisons where the bytes changed",
         "samples": checks.sample_histories(rnd, 1, 12) + checks.sample_histories(sweeps, 1, 10) + checks.sample_histories(beh, 1, 12)
-                   + checks.sample_histories(cong, 1, 40),
+                   + checks.sample_histories(cong, 1, 40) + checks.sample_histories(rsxx, 1, 30),
         "model_runs": [{"scope": r.scope, "ok": r.ok, "violation": r.violation, "distinct": r.distinct, "generated": r.generated,
                         "depth": r.depth, "wall_s": round(r.wall, 1)} for r in mruns],
         "exhaustive": False,
